@@ -28,6 +28,7 @@ def profile():
         'subsampling': [1, 1, 2],
         'poison': 0.3,
         'more_runs': 0.15,
+        'ref_json': 0.12,
     }, doc
 
 
